@@ -81,8 +81,10 @@ func judge(r *core.Run, sc *sims.Scenario, out *sims.Outcome) {
 		return
 	}
 	if out.Panic != nil {
-		// a crash is C09's business; here the execution is simply not judged
+		// nothing in this workload panics on purpose: the certificate has a
+		// verdict coming, and a crash is not it
 		r.Count("panicked", 1)
+		r.Violation("panicked-instead-of-a-verdict:"+sc.Entry, "the check panicked: "+out.Panic.Value, sc)
 		return
 	}
 	if out.Err != nil || len(out.Results) != sc.Len || out.Results[0] == nil {
